@@ -60,6 +60,16 @@ func goEnv() []string {
 	return env
 }
 
+// outDir is where evidence and replays are written: /verif, unless
+// VERIF_OUT_DIR redirects them (used when a check is run against a
+// deliberately broken tree, whose results must not replace the evidence).
+func outDir() string {
+	if d := os.Getenv("VERIF_OUT_DIR"); d != "" {
+		return d
+	}
+	return verifDir()
+}
+
 func fatal2(format string, a ...any) {
 	fmt.Fprintf(os.Stderr, "verif: infrastructure failure: "+format+"\n", a...)
 	os.Exit(2)
@@ -847,7 +857,7 @@ func loadReplay(path string) (*ReplayFile, error) {
 }
 
 func writeReplay(b *build, id string, r *violRec, shrink bool, tier string) string {
-	dir := filepath.Join(verifDir(), "replays")
+	dir := filepath.Join(outDir(), "replays")
 	os.MkdirAll(dir, 0o755)
 	o := r.out
 	rf := &ReplayFile{Property: id, Violation: r.v, Spec: o.Spec, Choices: o.Choices, Digest: o.Digest, Config: o.Desc, History: o.History, Tree: b.tree, Race: b.race}
@@ -1072,7 +1082,7 @@ func writeEvidence(id string, ps *propSpec, tier string, seed uint64, a *agg, b 
 		"wall_s":      wall,
 		"violations":  nViol,
 	}
-	dir := filepath.Join(verifDir(), "evidence")
+	dir := filepath.Join(outDir(), "evidence")
 	os.MkdirAll(dir, 0o755)
 	jb, _ := json.MarshalIndent(ev, "", " ")
 	os.WriteFile(filepath.Join(dir, id+".json"), jb, 0o644)
